@@ -93,7 +93,7 @@ class C10(Prop):
         "gam_sxp_textbook_laws", "gam_sxp_code_vs_textbook", "gam_sxp_code_close", "mixture_full_laws",
         "mixture_sample_is_component_inverse", "transformed_samples", "sampler_primitive_arguments",
         "gam_sxp_inverse_laws", "mixgev_log_versions", "hxp_inverse_laws", "mixgev_code_close_everywhere", "inverse_right_and_samples",
-        "bisection_total_generic", "hxp_invcdf_total", "sxp_gam_invcdf_total_partial", "mixgev_invcdf_total", "gam_sample_generated", "mixture_log_versions", "cdf_limits_wei_gev_mixgev", "mixgev_inverse_laws", "bisection_fuel_covers_binary64", "incomplete_gamma_series_converges", "hxp_invcdf_at_driver_fuel", "mixgev_invcdf_total_unconditional", "support_edge_values", "support_edge_branches")]
+        "bisection_total_generic", "hxp_invcdf_total", "sxp_gam_invcdf_total_partial", "mixgev_invcdf_total", "gam_sample_generated", "mixture_log_versions", "cdf_limits_wei_gev_mixgev", "mixgev_inverse_laws", "bisection_fuel_covers_binary64", "incomplete_gamma_series_converges", "hxp_invcdf_at_driver_fuel", "mixgev_invcdf_total_unconditional", "support_edge_values", "support_edge_branches", "wei_edge_is_density_limit")]
     claimed = True
     technique = ("Lean 4 proof about the C functions translated from the working tree on every run (clang-14 AST -> Lean, polymorphic "
                  "over a numeric class): real-analysis theorems at the R instance, the same definitions executed at Float bit-for-bit "
